@@ -1086,6 +1086,9 @@ class _ProtocolGraphWalker:
         self.shallow.update(shallow - not_shallow)
         new_shallow = self.shallow - self.client_shallow
         unshallow = self.unshallow = not_shallow & self.client_shallow
+        # Boundaries of the client that this request does not lift stay
+        # boundaries: its haves below them say nothing about what it holds.
+        self.shallow.update(self.client_shallow - unshallow)
 
         self.update_shallow(new_shallow, unshallow)
 
